@@ -13,8 +13,9 @@ package proto
 //@ spec func be32(b []byte, i int) int = ((int(b[i])*256 + int(b[i+1]))*256 + int(b[i+2]))*256 + int(b[i+3])
 //@ spec func validChan(n int) bool = 0x4000 <= n && n <= 0x7FFF
 //@ spec func hasCookie(b []byte) bool = b[4] == 0x21 && b[5] == 0x12 && b[6] == 0xA4 && b[7] == 0x42
-//@      // RFC 5766 s.11: the two kinds are told apart by the first two bits, never by payload bytes
-//@ spec func isStun(b []byte) bool = len(b) >= 20 && b[0] < 0x40 && hasCookie(b)
+//@      // RFC 5766 s.11: the two kinds are told apart by the leading bytes, never by payload bytes: a valid channel
+//@      // number makes the frame ChannelData whatever follows; otherwise STUN is what pion/stun's IsMessage accepts
+//@ spec func isStun(b []byte) bool = len(b) >= 20 && hasCookie(b) && !validChan(be16(b, 0))
 //@ spec func isChan(b []byte) bool = len(b) >= 4 && validChan(be16(b, 0))
 //@ spec func frameLen(b []byte) int = isStun(b) ? 20 + be16(b, 2) : 4 + pad4(be16(b, 2))
 //@ spec func complete(b []byte) bool = (isStun(b) || isChan(b)) && len(b) >= frameLen(b)
